@@ -135,7 +135,7 @@ int rp_run (FILE *sched, const struct rp_harness *h, struct rp_stats *st, const 
 				}
 				if (choice < 0) choice = 0;
 				rt_grant_choice (t, choice);
-				rp_note_label (label, rt_last (t)->mo, rt_last (t)->fmo, rt_last (t)->kind);
+				if (!diverged) rp_note_label (label, rt_last (t)->mo, rt_last (t)->fmo, rt_last (t)->kind);    /* once a behaviour has left the specification its labels no longer name the code's sites */
 				if (h->post) h->post (actor, label);
 				if (h->learn && !diverged) h->learn (actor, label, exp);
 			}
